@@ -71,9 +71,10 @@ def fixtable():
     for c, prop, fid, text, repl in defs.FIXED:
         if fid.startswith('T'):
             rows.append('| %s | %s | %s | **fixed** %s |' % (fid, prop, text.replace('|', '\\|'), c))
-    rows.append('| D73 | C06 | an eightbyte consisting only of unnamed bit-field padding takes a register (gcc/clang: NO_CLASS) | **recorded** |')
-    rows.append('| D12c | C08 | `_Alignas` on a member of a packed struct/union is ignored | **recorded** |')
-    rows.append('| D74 | C20 | a break/continue/goto that leaves a statement expression while temporaries of the enclosing expression are pushed does not release them (rsp drifts) | **recorded** |')
+    first = {'D59', 'D54', 'D17', 'D18', 'D12b', 'D25', 'D27', 'D56', 'D34', 'D58', 'D40', 'D48', 'D45'}   # already in the first table
+    for f in json.load(open(os.path.join(V, 'known_findings.json'))):
+        if f['line'].startswith('known') and f['id'] not in first:
+            rows.append('| %s | %s | %s | **recorded** |' % (f['id'], f['property'], f['line'].split(' ', 3)[3].replace('|', '\\|')))
     return '\n'.join(rows)
 
 
